@@ -1,11 +1,11 @@
-\* design check, quick: 2 accounts, 6 transactions, 2 submitting threads, <= 5 calls
+\* design check, quick: 2 accounts, 6 transactions, 2 submitting threads, <= 4 calls
 SPECIFICATION Spec
 CONSTANTS
   Accounts <- A2
   Txs <- TxsMC
   States <- StatesMC
   Threads <- T2
-  MaxOps = 5
+  MaxOps = 4
 VIEW view
 INVARIANTS TypeOK NoDupNonce NoDupHash ReadyIsGapFree CountersExact NoStaleAfterBlock
 PROPERTIES ScanSyncs FullScanSyncsAll PutOutcome
